@@ -436,6 +436,11 @@ def main():
                       ("modified_helmholtz_double_layer", "w"), ("helmholtz_far_field_single_layer", "ki!=0"), ("helmholtz_far_field_double_layer", "ki!=0")):
         for sp in (("P", 1, {}), ("DP", 0, {"segments": [2]})):
             run.add("potential.%s[tetra %s%d%s]==closed-form-sum" % (key, sp[0], sp[1], sorted(sp[2])), "post", PT.ob_potential, "tetra", sp, key, "real", [1, 2, 2, 1], case)
+    for key, case in (("laplace_single_layer", None), ("laplace_double_layer", None), ("helmholtz_single_layer", "ki!=0"), ("helmholtz_double_layer", "ki==0"),
+                      ("modified_helmholtz_double_layer", "w"), ("helmholtz_far_field_single_layer", "ki!=0")):
+        for sp in (("P", 1, {}), ("DP", 1, {"segments": [2]})):
+            run.add("potential.%s[tetra %s%d%s]: coefficient patterns (unit vectors, half zero, zero)" % (key, sp[0], sp[1], sorted(sp[2])), "bounded", PT.ob_potential_patterns,
+                    "tetra", sp, key, [1, 2, 2, 1], case)
     for name in MAXWELL:
         run.under_contract(getattr(NK, name), dropped="numeric dtypes; linalg.norm shim")
         for case in ("ki!=0", "ki==0"):
